@@ -210,6 +210,54 @@ def process_history_violation(pid, seed, cfg, idx, W, wall, pred_b=None, hashsee
             "detail": "history #%d gives another outcome digest after histories %s ran in the same interpreter than in a fresh interpreter" % (idx, side)}
 
 
+def fresh_interpreter_minimise(pid, v, cfg, max_rounds=12):
+    """ddmin over the operations of a C07 history, every candidate judged in its *own* new interpreter
+    (same interpreter configuration).  The in-worker minimiser cannot shrink a violation whose cause is
+    consumed the first time it shows (state kept once per process): there every candidate looks fine."""
+    from .p_c07 import fix_repeats
+    config = v.get("pythonhashseed", 0)
+    best = v
+    n = 2
+    execs = 0
+    for _ in range(max_rounds):
+        ops = best["case"]["ops"]
+        if len(ops) <= 2:
+            break
+        size = max(1, len(ops) // n)
+        cands = []
+        for start in range(0, len(ops), size):
+            c = ops[:start] + ops[start + size:]
+            if 0 < len(c) < len(ops):
+                cands.append(fix_repeats(c, ops))
+        cands = cands[:16]
+        if not cands:
+            break
+        jobs = [({"property": pid, "mode": "replay", "tier_cfg": cfg,
+                  "replay": {"violation": dict(best, case=dict(best["case"], ops=c))}}, config) for c in cands]
+        res = run_workers(jobs, 120)
+        execs += len(jobs)
+        hit = None
+        for lines in res:
+            for l in lines:
+                if l.get("type") == "replay" and l.get("reproduced"):
+                    g = l["violation"]
+                    if hit is None or len(g["case"]["ops"]) < len(hit["case"]["ops"]):
+                        hit = g
+        if hit is not None:
+            for k in ("case_index", "pythonhashseed", "count_in_worker", "total_count", "original_case_size"):
+                if k in best and k not in hit:
+                    hit[k] = best[k]
+            best = hit
+            n = max(2, n - 1)
+        elif size == 1:
+            break
+        else:
+            n = min(len(ops), n * 2)
+    best["fresh_interpreter_minimise_execs"] = execs
+    best["minimised_case_size"] = len(repr(best["case"]))
+    return best
+
+
 def run_check(pid, tier, seed, workers=None, cases=None, quiet=False):
     if pid == "C17":
         from .c17_runner import run_check_c17
@@ -415,6 +463,15 @@ def run_check(pid, tier, seed, workers=None, cases=None, quiet=False):
     for ent in known:
         if ent["status"] == "known" and ent["id"] in kf_seen:
             out_lines.append("KNOWN-FINDING: property=%s %s [%s; seen %d]" % (pid, ent["what"], ent["id"], kf_seen[ent["id"]]))
+    if pid == "C07":
+        for i, v in enumerate(new_viol):
+            c = v.get("case") or {}
+            if c.get("mode") == "script" and len(c.get("ops", ())) > 4 and v.get("minimise_execs", 0) > 0 \
+                    and v.get("minimised_case_size") == v.get("original_case_size"):
+                try:
+                    new_viol[i] = fresh_interpreter_minimise(pid, v, cfg)
+                except Exception as e:      # shrinking is a convenience: never lose the violation over it
+                    harness_errors.append({"type": "harness_error", "error": "fresh-interpreter minimise failed: %r" % (e,)})
     replay_paths = []
     for v in new_viol:
         path = write_replay(pid, v, seed, v.get("pythonhashseed", 0))
@@ -456,12 +513,17 @@ def run_check(pid, tier, seed, workers=None, cases=None, quiet=False):
         "wall_s": round(wall_s, 2),
         "violations": len(new_viol),
     }
+    from .reach import report as reach_report
+    ev["coverage"]["reach"] = reach_report(pid, ev["coverage"])
     os.makedirs(os.path.join(out_dir(), "evidence"), exist_ok=True)
     with open(os.path.join(out_dir(), "evidence", "%s.json" % pid), "w") as f:
         json.dump(ev, f, indent=1, default=str, sort_keys=True)
 
     for l in out_lines:
         print(l)
+    if ev["coverage"]["reach"]["not_reached"]:
+        print("REACH-GAP: %d of %d expected probes not hit: %s" % (len(ev["coverage"]["reach"]["not_reached"]), ev["coverage"]["reach"]["expected"],
+                                                                  ", ".join(ev["coverage"]["reach"]["not_reached"][:8])))
     print("cases=%d executions=%d distinct=%d discarded=%d wall=%.1fs violations=%d known=%s echo=%d/%d" % (
         tot["cases"], tot["executions"], len(keys), tot["discarded"], wall_s, len(new_viol),
         sorted(kf_seen), det["compared"] - len(det["mismatches"]), det["compared"]), flush=True)
